@@ -298,6 +298,23 @@ def gate(R, P, lg):
                     seen.append((op, fn.show(r)))
                     if op == ">=" and fn.show(r) == lvl_arg:
                         ok = True
+            if not ok:
+                # ... or the logger itself was obtained from aws_logger_get_conditional(subject, that level), which hands it
+                # out only under the same comparison (its own GATE rules above), and is tested for NULL
+                def _decl_init(x_):
+                    """initialiser of the declaration of local x_ in force at e (the closest dominating one)"""
+                    x_ = RU.uncast(fn, x_)
+                    if x_ is None or x_["k"] != "var":
+                        return x_
+                    ds = [(d_, v_) for d_ in fn.all_events() if d_.kind == "decl" for v_ in d_.node["vars"] if v_["n"] == x_["n"] and v_.get("init") is not None and ev_dominates(fn, d_, e, dom)]
+                    ds = [d for d in ds if all(o is d or ev_dominates(fn, o[0], d[0], dom) for o in ds)]
+                    return RU.uncast(fn, ds[0][1]["init"]) if len(ds) == 1 else x_
+                lg_ = _decl_init(RU.arg(fn, e.node, 0))
+                if lg_ is not None and lg_["k"] == "call" and lg_.get("callee") == "aws_logger_get_conditional" and fn.show(RU.uncast(fn, RU.arg(fn, lg_, 1))) == lvl_arg:
+                    for c, p, b in RU.guards(fn, e, dom):
+                        g = RU.cmp_norm(fn, c, p)
+                        if g and g[1] == "!=" and (g[2] is None or fn.is_const(RU.uncast(fn, g[2])) == 0) and _decl_init(g[0]) is lg_:
+                            ok = True
             R.check(ok, "GATE", "AWS_LOGF@%s" % fn.name, where(fn, e), "log(level=%s) guarded by get_log_level() >= %s" % (lvl_arg, lvl_arg),
                     "log call with level %s is not guarded by get_log_level() >= that level (guards seen: %s)" % (lvl_arg, seen))
     R.require(n >= 70, "only %d AWS_LOGF expansions found in the library (confirmed: 78)" % n)
